@@ -44,7 +44,8 @@ RULE = ("case = pair of non-empty binary masks of equal shape (1-D..3-D); exhaus
         "on 6, 1x5, 2x3 (always) and 2x2x2 (thorough; seeded slice of 4000 in quick); random layer up to 7^3: single voxels, one-voxel-thick "
         "sheets/lines, objects touching or filling the array border, disjoint, nested, hollow shells, random blobs; every "
         "random case additionally through padding/tight-crop/flip/transpose/swap metamorphic variants and through the "
-        "per-instance crop path with random paddings and foreign labels; non-trivial = both masks non-empty and different")
+        "per-instance crop path with random paddings and foreign labels; buffer layer: two arrays refilled in place between calls, every "
+        "call against the definition on the current contents; non-trivial = both masks non-empty and different")
 ASSUMPTIONS = [
     "scipy.ndimage.binary_erosion (border_value=0) and scipy.ndimage._nd_image.euclidean_feature_transform are modelled "
     "by their mathematical specification (face-neighbour erosion; nearest zero voxel), not verified; validated only by this correspondence",
@@ -470,6 +471,47 @@ def axiom_audit(ctx):
 
 
 # ------------------------------------------------------------------ run
+def run_buffer_steps(steps):
+    """two buffers allocated once and refilled in place before every call (threshold sweeps, post-processing loops):
+    -> (index of the first bad step or None, problems, implementation result, definition)"""
+    rbuf = np.zeros(steps[0][0].shape, dtype=steps[0][0].dtype)
+    pbuf = np.zeros(steps[0][1].shape, dtype=steps[0][1].dtype)
+    for i, (r, p) in enumerate(steps):
+        rbuf[...] = r
+        pbuf[...] = p
+        im = impl_eval(rbuf, pbuf)
+        mo = engine_run(701, [model_in(r, p)])[0]
+        probs = compare(im, mo, None)
+        if probs:
+            return i, probs, im, mo
+    return None, [], None, None
+
+
+def buffer_layer(ctx):
+    """ASSD of the masks as they are NOW: the same two array objects, refilled in place between the calls"""
+    rng = ctx.rng
+    n = 0
+    for _ in range(ctx.scale(12, 120)):
+        nd = rng.choice([1, 2, 2, 3, 3])
+        shape = rnd_shape(rng, nd, 2, 6)
+        dt = rng.choice([bool, np.uint8])
+        steps = [(rnd_blob(rng, shape).astype(dt), rnd_blob(rng, shape).astype(dt)) for _k in range(rng.randint(2, 4))]
+        bad, probs, im, mo = run_buffer_steps(steps)
+        n += 1
+        ctx.count({"mode": "buffer", "steps": [[r.astype(int).tolist(), p.astype(int).tolist()] for r, p in steps]}, True)
+        ctx.bump(f"refilled buffers/{nd}d")
+        if bad is not None:
+            keep = steps[:bad + 1]
+            for start in range(bad - 1, -1, -1):            # shortest history that still fails at the same masks
+                b2, _p, _i, _m = run_buffer_steps(steps[start:bad + 1])
+                if b2 == bad - start:
+                    keep = steps[start:bad + 1]
+                    break
+            ctx.violation(f"call {len(keep)} on two arrays refilled in place: " + "; ".join(probs),
+                          {"mode": "buffer", "steps": [[r, p] for r, p in keep], "implementation": im, "definition": mo})
+    ctx.layers.append({"layer": "the same two array objects refilled in place between calls, every call against the definition", "sequences": n})
+
+
 def prime_options():
     """Earlier calls of the public functions with NON-default options (full border connectivity, anisotropic voxel spacing) in
     every dimensionality: the property has no precondition on what the process did before, so module-level state they may
@@ -733,6 +775,7 @@ def run(ctx):
         if len(dense_in[j][1]) + len(dense_in[j][2]) <= 40:
             triples.append((703, dense_in[j], dense_out[j]))
     scene_layer(ctx)
+    buffer_layer(ctx)
     n, bad = coq_crosscheck("C07", triples)
     ctx.crosschecked = n
     for b in bad:
@@ -749,6 +792,21 @@ def run(ctx):
 # ------------------------------------------------------------------ replay
 def replay(path):
     d = json.loads(open(path).read())
+    if d.get("mode") == "buffer":
+        prime_options()
+        steps = [(common.arr_from_json(r), common.arr_from_json(p)) for r, p in d["steps"]]
+        bad, probs, im, mo = run_buffer_steps(steps)
+        print(f"two arrays of shape {steps[0][0].shape} refilled in place, {len(steps)} calls")
+        if bad is None:
+            print("every call equals the definition on the masks it was given\nagree")
+            return 0
+        print(f"call {bad + 1}: reference\n", steps[bad][0].astype(int), "\nprediction\n", steps[bad][1].astype(int))
+        print("implementation:", im, "\ndefinition (model) squared distances:", mo)
+        for x in probs:
+            print("PROPERTY FAILS ON THE IMPLEMENTATION:", x)
+        print("the same masks in fresh arrays:", "agree with the definition" if not fails_direct(steps[bad][0].copy(), steps[bad][1].copy()) else "also differ")
+        print("DIFFER")
+        return 1
     if d.get("mode") == "scene":
         prime_options()
         ref, pred = common.arr_from_json(d["ref"]), common.arr_from_json(d["pred"])
